@@ -16,7 +16,7 @@
 From Coq Require Import List NArith Bool Arith Permutation Lia.
 Import ListNotations.
 Require Import MV.Common.Interleave MV.C05.Model MV.C05.Spec MV.C05.Exec.
-Require Import MV.C05.ProofsSeq MV.C05.ProofsInv MV.C05.ProofsCor MV.C05.ProofsUniq MV.C05.ProofsCons MV.C05.ProofsProg MV.C05.ProofsSnap MV.C05.ProofsEmpty MV.C05.ProofsOrder MV.C05.ProofsSpec MV.C05.ProofsTrace1 MV.C05.ProofsTrace2 MV.C05.ProofsTrace3 MV.C05.ProofsTrace4 MV.C05.ProofsTrace5 MV.C05.ProofsTrace6 MV.C05.ProofsTrace7 MV.C05.ProofsTrace8.
+Require Import MV.C05.ProofsSeq MV.C05.ProofsInv MV.C05.ProofsCor MV.C05.ProofsUniq MV.C05.ProofsCons MV.C05.ProofsProg MV.C05.ProofsSnap MV.C05.ProofsEmpty MV.C05.ProofsOrder MV.C05.ProofsSpec MV.C05.ProofsTrace1 MV.C05.ProofsTrace2 MV.C05.ProofsTrace3 MV.C05.ProofsTrace4 MV.C05.ProofsTrace5 MV.C05.ProofsTrace6 MV.C05.ProofsTrace7 MV.C05.ProofsTrace8 MV.C05.ProofsTrace9.
 Local Open Scope nat_scope.
 
 (* (1) complete calls, run one after the other by any threads, are exactly the bag operations:
@@ -464,6 +464,24 @@ Theorem C05_spec_pub_positions_on_model : forall c : case,
     w < length tr /\ genuine (progs_of c) (px i) /\
     exists b j, slot (heap (fst cf)) b j = Some (px i) /\ pub (heap (fst cf)) b j.
 Proof. exact spec_pub_positions_on_model. Qed.
+
+(* (13) final stage.  S3 for data_with calls, for every case whose programs contain no clear_with: every
+   push-table entry whose 503 position lies below the call's 530 position is in the slices the call was
+   handed (the snapshot invariant of C05_snapshot_sees_completed run along the trace with the
+   obligation set "genuine push, 503 position below the call's start"; without clears every block
+   stays reachable from tail, so the `clears` disjunct of Spec.accounts is not needed).  No `done`
+   hypothesis: only completed calls appear in the results.
+   STILL NOT PROVED: C05_spec_completeness_on_model in general (data_with calls in cases WITH clears:
+   needs the 541 positions, the alignment of clear calls with their `rcas` and a detach ledger;
+   is_empty calls: needs the 520 positions, `empty_end` restated with explicit state, and
+   C05_is_empty_sound along the trace) and therefore the conjunction C05_spec_ok_on_model. *)
+Theorem C05_spec_snapshot_completeness_on_model_no_clear : forall c : case,
+  (forall p, In p (progs_of c) -> ~ In CClear p) ->
+  let '(tr, rss, _, _, _) := run_case c in
+  let tbl := pinfos tr 0 (progs_of c) in
+  let rc := rcalls tr 0 rss in
+  forallb (fun r => if (rkind r =? 0)%N then accounts tbl (filter is_clear rc) (rstart r) (handed r) else true) rc = true.
+Proof. exact spec_snapshot_completeness_no_clear. Qed.
 
 (* Block::len must be trailing_ones, not count_ones: in a reachable configuration where a snapshot
    stands at 506 after a passed quiescence test, a popcount length hands out an unwritten slot,
